@@ -519,6 +519,12 @@ var funcs = []fnEntry{
 	// ------------------------------------------------------------ sigbits
 	{"sigbits.FirstDiffBits", func(t *rapid.T) Args {
 		ks := genKeysSorted(t, 1)
+		if gen.Chance(t, 1, 3, "dup") { // nor distinct keys ("every non-empty list")
+			for n := 1 + gen.Uniform(t, 3, "ndup"); n > 0; n-- {
+				ks = append(ks, ks[gen.Uniform(t, len(ks), "which")])
+			}
+			sort.Slice(ks, func(i, j int) bool { return string(ks[i]) < string(ks[j]) })
+		}
 		if gen.Chance(t, 1, 2, "unsorted") { // the function does not require order
 			for i := len(ks) - 1; i > 0; i-- {
 				j := gen.Uniform(t, i+1, "swap")
@@ -534,6 +540,24 @@ var funcs = []fnEntry{
 			}
 			keys := g.keys(bs)
 			return func() []any { return pack(sigbits.FirstDiffBits(keys)) }
+		}},
+	{"sigbits.New(list with repeated keys)", func(t *rapid.T) Args {
+		ks := genKeysSorted(t, 1)
+		for n := 1 + gen.Uniform(t, 3, "ndup"); n > 0; n-- {
+			ks = append(ks, ks[gen.Uniform(t, len(ks), "which")])
+		}
+		sort.Slice(ks, func(i, j int) bool { return string(ks[i]) < string(ks[j]) })
+		return Args{S: ks}
+	},
+		func(a Args, g *guard) func() []any {
+			bs := toBytes(a.S)
+			if len(bs) == 0 {
+				bs = [][]byte{[]byte("k"), []byte("k")}
+			}
+			keys := g.keys(bs)
+			// New only indexes the list (FirstDiffBits accepts every non-empty list); nothing is queried: the
+			// observation is what happens to the caller's keys
+			return func() []any { return pack(sigbits.New(keys) != nil) }
 		}},
 	{"sigbits.New+CountPrefixes", func(t *rapid.T) Args {
 		return Args{S: genKeysSorted(t, 2), N: []int64{r64(t, "s"), r64(t, "e"), int64(1 + gen.Uniform(t, 70, "m"))}}
